@@ -321,6 +321,9 @@ type backend struct {
 
 func (s *Solver) fallback(extra *Term, wantModel bool) (SatResult, Model) {
 	script := s.dump(extra, wantModel)
+	if d := os.Getenv("SYMGO_DUMPQ"); d != "" {
+		os.WriteFile(fmt.Sprintf("%s/fallback%d.smt2", d, atomic.AddInt64(&gDumped, 1)), []byte(script), 0o644)
+	}
 	muldiv := false
 	seen := map[*Term]bool{}
 	for _, a := range s.asserts {
@@ -358,7 +361,8 @@ func (s *Solver) fallback(extra *Term, wantModel bool) (SatResult, Model) {
 			<-done
 		}
 		text := out.String()
-		if strings.Contains(text, "(error") {
+		// an "(error ..." AFTER a first-line verdict is only the refused (get-value) of an unsat answer
+		if t0 := strings.TrimSpace(text); strings.Contains(text, "(error") && !strings.HasPrefix(t0, "unsat") && !strings.HasPrefix(t0, "sat") {
 			if gDebug {
 				fmt.Println("FALLBACK ERROR", be.name, firstLine(text))
 			}
